@@ -1,5 +1,578 @@
-//! sim `registers` — skeleton, to be filled in (see /verif/DESIGN.md section 5).
+//! sim `registers` (property C06): 2..5 replicas, each a real `(SignedRegister, RegisterCrdt)` pair from
+//! `/repo/ant-registers`, writers with real BLS keys, and a simulator-owned transport (op broadcast and
+//! whole-register transfer with reordering, duplication, loss until heal, partitions). The operation pool
+//! mixes authorised, unauthorised, forged, foreign-address, oversized, concurrent and causally chained
+//! operations; adversarial registers arrive only through the verifying entry points the node uses.
+
+mod model;
+mod world;
+
+use serde::{Deserialize, Serialize};
+use simkit::{GenCtx, PropertySpec, Rng, RunReport, Sim, Tier};
+
+#[derive(Serialize, Deserialize, Clone, Copy, Debug, PartialEq, Eq)]
+pub enum Perm {
+    /// `Permissions::new_with([])` (the owner is added by `Register::new`)
+    OwnerOnly,
+    /// `Permissions::new_with(listed writers)`
+    Writers,
+    /// `Permissions::new_anyone_can_write()`
+    Anyone,
+}
+
+#[derive(Serialize, Deserialize, Clone, Copy, Debug, PartialEq, Eq)]
+pub enum Kind {
+    /// signed by an authorised actor
+    Good,
+    /// genuinely signed by an actor that is not in the permissions
+    Unauthorised,
+    /// source = an authorised actor, signature made by a stranger's key
+    ForgedByStranger,
+    /// source = an authorised actor, signature is that actor's genuine signature over another entry
+    ForgedTampered,
+    /// genuinely signed by an authorised actor, but addressed to a register with another meta
+    ForeignMeta,
+    /// genuinely signed by an authorised actor, but addressed to a register with another owner
+    ForeignOwner,
+    /// genuinely signed by an authorised actor, entry larger than the size limit
+    Oversized,
+}
+
+#[derive(Serialize, Deserialize, Clone, Copy, Debug, PartialEq, Eq)]
+#[serde(tag = "p")]
+pub enum Parents {
+    /// the current values of replica `at` (what a client that fetched from `at` writes atop)
+    Heads,
+    Root,
+    /// the same parents as pool op `of` (modulo pool size): a concurrent sibling
+    SameAs { of: u32 },
+    /// directly atop pool op `of` (modulo pool size), delivered or not, valid or not
+    ChildOf { of: u32 },
+}
+
+#[derive(Serialize, Deserialize, Clone, Copy, Debug, PartialEq, Eq)]
+#[serde(tag = "e")]
+pub enum EntrySel {
+    Fresh { size: u32 },
+    /// the very same entry bytes as pool op `of` (modulo pool size)
+    CopyOf { of: u32 },
+}
+
+#[derive(Serialize, Deserialize, Clone, Copy, Debug, PartialEq, Eq)]
+#[serde(tag = "d")]
+pub enum Push {
+    None,
+    /// one op message from replica `at` to every replica in `mask`
+    Broadcast { mask: u32 },
+    /// the client adds the op to its fetched copy (`add_op`, as `Register::write_atop`) and puts the
+    /// whole copy to every replica in `mask`
+    ClientState { mask: u32, via: Via },
+}
+
+#[derive(Serialize, Deserialize, Clone, Copy, Debug, PartialEq, Eq)]
+pub enum Via {
+    /// `local.verified_merge(&incoming)` (ant-node `register_validation`)
+    VerifiedMerge,
+    /// `incoming.verify()` then `local.merge(&incoming)` (ant-networking split-record handling)
+    VerifyThenMerge,
+}
+
+#[derive(Serialize, Deserialize, Clone, Copy, Debug, PartialEq, Eq)]
+#[serde(tag = "b")]
+pub enum Bad {
+    /// the replica's ops plus pool op `op` (valid or not)
+    InjectOp { op: u32 },
+    /// permissions widened to include a stranger, the owner's signature over the original register reused
+    WidenedPermsOldSig,
+    /// permissions widened to include a stranger, signed by the stranger
+    WidenedPermsStrangerSig,
+    /// a genuine register of the same owner with another meta (a different base register)
+    OtherMeta,
+    /// same address, different permissions, genuinely owner-signed (offered only to replicas that hold the register)
+    OtherPermsOwnerSigned,
+}
+
+#[derive(Serialize, Deserialize, Clone, Debug, PartialEq)]
+#[serde(tag = "t")]
+pub enum Step {
+    /// A client fetches replica `at`, writes an entry with the real `RegisterCrdt::write` + `RegisterOp::new`.
+    Write { at: u32, actor: u32, kind: Kind, parents: Parents, entry: EntrySel, push: Push },
+    /// (Re)send pool op `op` from replica `from` to replica `to`.
+    SendOp { op: u32, from: u32, to: u32 },
+    /// Snapshot replica `from`'s register now and send it to `to`.
+    SendState { from: u32, to: u32, via: Via },
+    /// An adversarial register built from replica `base`'s current register arrives at `to` (immediately).
+    AdvState { to: u32, base: u32, bad: Bad, via: Via },
+    /// Deliver the `sel`-th deliverable message (u32::MAX = the newest).
+    Deliver { sel: u32 },
+    Dup { sel: u32 },
+    /// Lose the `sel`-th deliverable message; it is retransmitted at the next heal.
+    Drop { sel: u32 },
+    /// Replicas whose bit is set are cut off from the others until Heal.
+    Partition { mask: u32 },
+    Heal,
+    /// Check the merge laws on three recorded reachable states.
+    Laws { a: u32, b: u32, c: u32 },
+    /// A client at replica `at` writes `n` entries (chained or all concurrent); they are delivered at once
+    /// by `add_op`+`apply_op` to the replicas in `to_mask` (each replica in its own order derived from `order`).
+    Bulk { at: u32, n: u32, chained: bool, to_mask: u32, order: u32 },
+}
+
+#[derive(Serialize, Deserialize, Clone, Copy, Debug, PartialEq, Eq)]
+pub enum FinalSync {
+    /// every op of the pool is (re)sent to every replica that does not hold it
+    Rebroadcast,
+    /// every replica sends its register to a hub, the hub sends the result back
+    AntiEntropy,
+}
+
+#[derive(Serialize, Deserialize, Clone, Debug)]
+pub struct Plan {
+    pub property: String,
+    pub mode: String,
+    pub key_seed: u64,
+    pub replicas: u32,
+    /// replicas (never replica 0) that start without the register
+    pub absent_mask: u32,
+    pub perm: Perm,
+    /// listed writers besides the owner
+    pub listed: u32,
+    pub strangers: u32,
+    pub final_sync: FinalSync,
+    pub steps: Vec<Step>,
+}
+
+pub struct RegistersSim;
+
+fn gen_size(rng: &mut Rng) -> u32 {
+    match rng.below(20) {
+        0 => 0,
+        1 => 1,
+        2 => 1023,
+        3 | 4 => 1024,
+        5 => rng.range(200, 1022) as u32,
+        _ => rng.range(8, 40) as u32,
+    }
+}
+
+fn gen_small(rng: &mut Rng, ctx: &GenCtx) -> Plan {
+    let fault = ctx.mode == "fault";
+    let replicas = rng.range(2, 5) as u32;
+    let perm = *rng.pick(&[Perm::OwnerOnly, Perm::Writers, Perm::Writers, Perm::Anyone]);
+    let listed = match perm {
+        Perm::Writers => rng.range(1, 3) as u32,
+        _ => 0,
+    };
+    let strangers = rng.range(1, 2) as u32;
+    let absent_mask = if rng.chance(1, 4) { 1u32 << rng.range(1, replicas as u64 - 1) } else { 0 };
+    let all = (1u32 << replicas) - 1;
+    let n_steps = match ctx.tier {
+        Tier::Quick => rng.urange(6, 36),
+        Tier::Thorough => rng.urange(6, 60),
+    };
+    let max_writes = match ctx.tier {
+        Tier::Quick => rng.urange(3, 11),
+        Tier::Thorough => rng.urange(3, 16),
+    };
+    // swarm: weights of this run
+    let w_write = rng.range(15, 40);
+    let w_sendop = if rng.chance(1, 2) { rng.range(1, 8) } else { 0 };
+    let w_sendstate = if rng.chance(4, 5) { rng.range(3, 18) } else { 0 };
+    let w_adv = if rng.chance(2, 3) { rng.range(2, 10) } else { 0 };
+    let w_deliver = rng.range(20, 55);
+    let w_laws = if rng.chance(1, 2) { rng.range(1, 3) } else { 0 };
+    let (w_dup, w_drop, w_part, w_heal) = if fault {
+        (
+            if rng.chance(3, 4) { rng.range(2, 9) } else { 0 },
+            if rng.chance(3, 4) { rng.range(2, 9) } else { 0 },
+            if rng.chance(2, 3) { rng.range(1, 5) } else { 0 },
+            rng.range(1, 4),
+        )
+    } else {
+        (0, 0, 0, 0)
+    };
+    let weights = [w_write, w_sendop, w_sendstate, w_adv, w_deliver, w_laws, w_dup, w_drop, w_part, w_heal];
+    let kind_w = [
+        12,
+        if rng.chance(2, 3) { rng.range(1, 4) } else { 0 },
+        if rng.chance(1, 2) { rng.range(1, 3) } else { 0 },
+        if rng.chance(1, 2) { rng.range(1, 3) } else { 0 },
+        if rng.chance(1, 2) { rng.range(1, 3) } else { 0 },
+        if rng.chance(1, 3) { rng.range(1, 2) } else { 0 },
+        if rng.chance(1, 2) { rng.range(1, 3) } else { 0 },
+    ];
+    let kinds = [
+        Kind::Good,
+        Kind::Unauthorised,
+        Kind::ForgedByStranger,
+        Kind::ForgedTampered,
+        Kind::ForeignMeta,
+        Kind::ForeignOwner,
+        Kind::Oversized,
+    ];
+    let parents_w = [
+        12,
+        if rng.chance(1, 2) { rng.range(1, 3) } else { 0 },
+        if rng.chance(2, 3) { rng.range(1, 6) } else { 0 },
+        if rng.chance(2, 3) { rng.range(1, 6) } else { 0 },
+    ];
+    let push_w = [1, rng.range(4, 12), if rng.chance(2, 3) { rng.range(1, 6) } else { 0 }];
+    // schedule policy: 0 fifo, 1 random, 2 newest first, 3 mostly fifo
+    let sched = if fault { rng.below(4) } else { 0 };
+    let via = |rng: &mut Rng| if rng.chance(1, 2) { Via::VerifiedMerge } else { Via::VerifyThenMerge };
+
+    let mut steps = Vec::with_capacity(n_steps + 4);
+    let mut writes = 0usize;
+    for _ in 0..n_steps {
+        let mut choice = rng.weighted(&weights);
+        if choice == 0 && writes >= max_writes {
+            choice = 4;
+        }
+        let s = match choice {
+            0 => {
+                writes += 1;
+                let kind = kinds[rng.weighted(&kind_w)];
+                let parents = match rng.weighted(&parents_w) {
+                    0 => Parents::Heads,
+                    1 => Parents::Root,
+                    2 => Parents::SameAs { of: rng.below(64) as u32 },
+                    _ => Parents::ChildOf { of: rng.below(64) as u32 },
+                };
+                let entry = if kind == Kind::Oversized {
+                    EntrySel::Fresh { size: if rng.chance(1, 2) { 1025 } else { rng.range(1026, 3000) as u32 } }
+                } else if rng.chance(1, 16) {
+                    EntrySel::CopyOf { of: rng.below(64) as u32 }
+                } else {
+                    EntrySel::Fresh { size: gen_size(rng) }
+                };
+                let mask = if rng.chance(1, 2) { all } else { (rng.below(all as u64) + 1) as u32 };
+                let push = match rng.weighted(&push_w) {
+                    0 => Push::None,
+                    1 => Push::Broadcast { mask },
+                    _ => Push::ClientState { mask, via: via(rng) },
+                };
+                Step::Write { at: rng.below(8) as u32, actor: rng.below(8) as u32, kind, parents, entry, push }
+            }
+            1 => Step::SendOp { op: rng.below(64) as u32, from: rng.below(8) as u32, to: rng.below(8) as u32 },
+            2 => Step::SendState { from: rng.below(8) as u32, to: rng.below(8) as u32, via: via(rng) },
+            3 => {
+                let bad = match rng.below(8) {
+                    0 => Bad::WidenedPermsOldSig,
+                    1 => Bad::WidenedPermsStrangerSig,
+                    2 => Bad::OtherMeta,
+                    3 => Bad::OtherPermsOwnerSigned,
+                    _ => Bad::InjectOp { op: rng.below(64) as u32 },
+                };
+                Step::AdvState { to: rng.below(8) as u32, base: rng.below(8) as u32, bad, via: via(rng) }
+            }
+            4 => Step::Deliver {
+                sel: match sched {
+                    0 => 0,
+                    1 => rng.below(1 << 16) as u32,
+                    2 => u32::MAX,
+                    _ => {
+                        if rng.chance(1, 4) {
+                            rng.below(1 << 16) as u32
+                        } else {
+                            0
+                        }
+                    }
+                },
+            },
+            5 => Step::Laws { a: rng.below(1 << 16) as u32, b: rng.below(1 << 16) as u32, c: rng.below(1 << 16) as u32 },
+            6 => Step::Dup { sel: rng.below(1 << 16) as u32 },
+            7 => Step::Drop { sel: rng.below(1 << 16) as u32 },
+            8 => Step::Partition { mask: (rng.below(all as u64 - 1) + 1) as u32 },
+            _ => Step::Heal,
+        };
+        let created_inflight = matches!(
+            s,
+            Step::Write { push: Push::Broadcast { .. } | Push::ClientState { .. }, .. } | Step::SendState { .. }
+        );
+        steps.push(s);
+        // bias: faults land right after an operation that created in-flight state
+        if fault && created_inflight && rng.chance(1, 4) {
+            steps.push(match rng.below(3) {
+                0 if w_drop > 0 => Step::Drop { sel: u32::MAX },
+                1 if w_dup > 0 => Step::Dup { sel: u32::MAX },
+                _ if w_part > 0 => Step::Partition { mask: (rng.below(all as u64 - 1) + 1) as u32 },
+                _ => Step::Deliver { sel: u32::MAX },
+            });
+        }
+    }
+    if rng.chance(1, 2) {
+        steps.push(Step::Laws { a: rng.below(1 << 16) as u32, b: rng.below(1 << 16) as u32, c: rng.below(1 << 16) as u32 });
+    }
+    Plan {
+        property: ctx.property.clone(),
+        mode: ctx.mode.clone(),
+        key_seed: rng.next_u64(),
+        replicas,
+        absent_mask,
+        perm,
+        listed,
+        strangers,
+        final_sync: if rng.chance(1, 2) { FinalSync::Rebroadcast } else { FinalSync::AntiEntropy },
+        steps,
+    }
+}
+
+/// Entry-limit runs: anyone-can-write (no per-op signature check), replicas driven to 1018..1030 ops by
+/// `add_op` and by merges.
+fn gen_limit(rng: &mut Rng, ctx: &GenCtx) -> Plan {
+    let replicas = rng.range(2, 3) as u32;
+    let all = (1u32 << replicas) - 1;
+    let via = |rng: &mut Rng| if rng.chance(1, 2) { Via::VerifiedMerge } else { Via::VerifyThenMerge };
+    let mut steps = vec![];
+    let scenario = rng.below(3);
+    let order = match rng.below(3) {
+        0 => 0,
+        1 => 1,
+        _ => rng.range(2, 1 << 16) as u32,
+    };
+    let chained = rng.chance(1, 2);
+    match scenario {
+        0 => {
+            // reach / cross the limit by op delivery
+            let n = *rng.pick(&[1021u32, 1022, 1023, 1024, 1024, 1025, 1026, 1027]);
+            steps.push(Step::Bulk { at: 0, n, chained, to_mask: all, order });
+        }
+        1 => {
+            // two sides fill up separately, then exchange whole registers
+            let total = *rng.pick(&[1021u32, 1022, 1023, 1024, 1024, 1025, 1026, 1030]);
+            let n1 = rng.range(1, (total - 1).min(1023) as u64) as u32;
+            let n2 = (total - n1).min(1023);
+            steps.push(Step::Partition { mask: 1 });
+            steps.push(Step::Bulk { at: 0, n: n1, chained, to_mask: 1, order });
+            steps.push(Step::Bulk { at: 1, n: n2, chained: rng.chance(1, 2), to_mask: all & !1, order });
+            steps.push(Step::Heal);
+            steps.push(Step::SendState { from: 0, to: 1, via: via(rng) });
+            steps.push(Step::SendState { from: 1, to: 0, via: via(rng) });
+            steps.push(Step::Deliver { sel: 0 });
+            steps.push(Step::Deliver { sel: 0 });
+        }
+        _ => {
+            // stop just short of the limit and continue with ordinary traffic
+            let n = rng.range(1016, 1022) as u32;
+            steps.push(Step::Bulk { at: 0, n, chained, to_mask: all, order });
+        }
+    }
+    let extra = if scenario == 2 { rng.urange(6, 16) } else { rng.urange(0, 8) };
+    for _ in 0..extra {
+        let s = match rng.below(10) {
+            0..=4 => Step::Write {
+                at: rng.below(8) as u32,
+                actor: rng.below(8) as u32,
+                kind: *rng.pick(&[Kind::Good, Kind::Good, Kind::Good, Kind::Unauthorised, Kind::Oversized, Kind::ForgedByStranger]),
+                parents: if rng.chance(3, 4) { Parents::Heads } else { Parents::ChildOf { of: rng.below(2000) as u32 } },
+                entry: EntrySel::Fresh { size: rng.range(8, 40) as u32 },
+                push: if rng.chance(3, 4) {
+                    Push::Broadcast { mask: if rng.chance(1, 2) { all } else { (rng.below(all as u64) + 1) as u32 } }
+                } else {
+                    Push::ClientState { mask: (rng.below(all as u64) + 1) as u32, via: via(rng) }
+                },
+            },
+            5 | 6 => Step::SendState { from: rng.below(8) as u32, to: rng.below(8) as u32, via: via(rng) },
+            7 => Step::Laws { a: rng.below(1 << 16) as u32, b: rng.below(1 << 16) as u32, c: rng.below(1 << 16) as u32 },
+            _ => Step::Deliver { sel: if rng.chance(1, 2) { 0 } else { rng.below(1 << 16) as u32 } },
+        };
+        let w = matches!(s, Step::Write { .. });
+        steps.push(s);
+        if w {
+            for _ in 0..replicas {
+                if rng.chance(2, 3) {
+                    steps.push(Step::Deliver { sel: 0 });
+                }
+            }
+        }
+    }
+    Plan {
+        property: ctx.property.clone(),
+        mode: ctx.mode.clone(),
+        key_seed: rng.next_u64(),
+        replicas,
+        absent_mask: 0,
+        perm: Perm::Anyone,
+        listed: 0,
+        strangers: 1,
+        final_sync: if rng.chance(1, 2) { FinalSync::Rebroadcast } else { FinalSync::AntiEntropy },
+        steps,
+    }
+}
+
+impl Sim for RegistersSim {
+    type Plan = Plan;
+    const NAME: &'static str = "registers";
+
+    fn properties() -> Vec<PropertySpec> {
+        vec![PropertySpec {
+            id: "C06",
+            level: "exploration",
+            // weights: 6 fault-free, 6 fault, 1 entry-limit run (~0.8 s of BLS signing each) out of every 13
+            modes: vec!["nofault", "fault", "nofault", "fault", "nofault", "fault", "limit", "nofault", "fault", "nofault", "fault", "nofault", "fault"],
+            quick_runs: 1_820,
+            thorough_runs: 91_000,
+            rule: "One run = one seeded plan over 2..5 replicas (each a real SignedRegister + RegisterCrdt; some start without the register) with owner-only / listed-writers / anyone permissions and BLS keys derived from the plan: clients write entries with the real RegisterCrdt::write + RegisterOp::new (authorised, unauthorised signer, two forgeries, two foreign-address forms, oversized, identical content, concurrent siblings, children delivered before parents), ops travel as op broadcast (add_op + apply_op) or inside whole registers (verified_merge, verify + merge, verify_with_address for a replica without the register), adversarial registers (injected op, widened permissions, other base register) arrive only through those verifying entry points; the simulator owns the message queue (mode nofault: FIFO reliable; mode fault: reordering, duplication, loss until heal, partitions; mode limit: anyone-can-write registers driven to 1016..1030 ops by add_op and by merges). After every delivery the replica's op set is compared with the independently kept valid set and acknowledged outcomes, its current values with an independent Merkle-DAG model and with a client-style rebuild; merge laws are checked on sampled triples of recorded reachable states; every run ends with heal + full delivery followed by equality of ops() and read() across replicas and verify() of every final state at its peers. Non-trivial = >=3 operations and (>=1 non-FIFO delivery or >=1 fired fault); distinct = distinct fingerprint of the executed delivery decisions and faults.",
+            assumptions: vec![
+                "a replica is driven as the client/node code drives it: local write = RegisterCrdt::write + RegisterOp::new + add_op; remote op = add_op then apply_op; remote register = verified_merge, or verify then merge, or (register not held) verify_with_address then store, the CRDT being rebuilt with apply_op as Client::register_get does",
+                "under anyone-can-write permissions any signer and any signature is acceptable (the statement's 'or the register is open to anyone'); address and entry-size rules still apply",
+                "the owner is honest (never signs two different permission sets for one address towards a replica that does not hold the register)",
+                "BLS keys are derived from the plan; no OS randomness is consumed by the code under test in this sim",
+                "the entry-count limit is 1024; at 1023 held ops and above either admission outcome is tolerated, but every state reached must still be accepted by peers and replicas must still converge",
+            ],
+        }]
+    }
+
+    fn generate(rng: &mut Rng, ctx: &GenCtx) -> Plan {
+        if ctx.mode == "limit" {
+            gen_limit(rng, ctx)
+        } else {
+            gen_small(rng, ctx)
+        }
+    }
+
+    fn execute(plan: &Plan, _entropy: u64) -> RunReport {
+        world::execute(plan)
+    }
+
+    fn shrink(plan: &Plan) -> Vec<Plan> {
+        let mut out = vec![];
+        // entry-limit plans cost ~1 s per execution (a thousand BLS signatures): offer the canonical
+        // smallest histories first, the minimiser keeps one only if the same rule + signature fires
+        if plan.steps.iter().any(|s| matches!(s, Step::Bulk { .. })) {
+            let canon: Vec<(FinalSync, Vec<Step>)> = vec![
+                (FinalSync::Rebroadcast, vec![Step::Bulk { at: 0, n: 1024, chained: false, to_mask: 1, order: 0 }]),
+                (
+                    FinalSync::Rebroadcast,
+                    vec![
+                        Step::Partition { mask: 1 },
+                        Step::Bulk { at: 0, n: 1023, chained: false, to_mask: 1, order: 0 },
+                        Step::Bulk { at: 1, n: 1, chained: false, to_mask: 2, order: 0 },
+                        Step::Heal,
+                        Step::SendState { from: 1, to: 0, via: Via::VerifiedMerge },
+                        Step::Deliver { sel: 0 },
+                    ],
+                ),
+                (
+                    FinalSync::AntiEntropy,
+                    vec![
+                        Step::Partition { mask: 1 },
+                        Step::Bulk { at: 0, n: 1023, chained: false, to_mask: 1, order: 0 },
+                        Step::Bulk { at: 1, n: 1, chained: false, to_mask: 2, order: 0 },
+                    ],
+                ),
+                (FinalSync::Rebroadcast, vec![Step::Bulk { at: 0, n: 1025, chained: false, to_mask: 3, order: 1 }]),
+            ];
+            for (fs, steps) in canon {
+                if plan.steps != steps || plan.replicas != 2 || plan.final_sync != fs {
+                    let bigger = plan.replicas > 2 || plan.steps.len() > steps.len();
+                    if bigger {
+                        let mut p = plan.clone();
+                        p.replicas = 2;
+                        p.absent_mask = 0;
+                        p.final_sync = fs;
+                        p.steps = steps;
+                        out.push(p);
+                    }
+                }
+            }
+        }
+        for steps in simkit::shrink::remove_chunks(&plan.steps) {
+            let mut p = plan.clone();
+            p.steps = steps;
+            out.push(p);
+        }
+        if plan.replicas > 2 {
+            let mut p = plan.clone();
+            p.replicas = 2;
+            p.absent_mask &= 3;
+            out.push(p.clone());
+            if plan.replicas > 3 {
+                p.replicas = plan.replicas - 1;
+                p.absent_mask = plan.absent_mask & ((1 << p.replicas) - 1);
+                out.push(p);
+            }
+        }
+        if plan.absent_mask != 0 {
+            let mut p = plan.clone();
+            p.absent_mask = 0;
+            out.push(p);
+        }
+        if plan.final_sync != FinalSync::Rebroadcast {
+            let mut p = plan.clone();
+            p.final_sync = FinalSync::Rebroadcast;
+            out.push(p);
+        }
+        if plan.listed > 1 {
+            let mut p = plan.clone();
+            p.listed = 1;
+            out.push(p);
+        }
+        if plan.strangers > 1 {
+            let mut p = plan.clone();
+            p.strangers = 1;
+            out.push(p);
+        }
+        for steps in simkit::shrink::simplify_each(&plan.steps, |s| match s {
+            Step::Deliver { sel } if *sel != 0 => vec![Step::Deliver { sel: 0 }],
+            Step::Write { at, actor, kind, parents, entry, push } => {
+                let mut v = vec![];
+                if *parents != Parents::Root {
+                    v.push(Step::Write { at: *at, actor: *actor, kind: *kind, parents: Parents::Root, entry: *entry, push: *push });
+                }
+                match entry {
+                    EntrySel::Fresh { size } if *size != 8 && *size <= 1024 => {
+                        v.push(Step::Write { at: *at, actor: *actor, kind: *kind, parents: *parents, entry: EntrySel::Fresh { size: 8 }, push: *push })
+                    }
+                    EntrySel::Fresh { size } if *size > 1025 => {
+                        v.push(Step::Write { at: *at, actor: *actor, kind: *kind, parents: *parents, entry: EntrySel::Fresh { size: 1025 }, push: *push })
+                    }
+                    _ => {}
+                }
+                if *kind != Kind::Good {
+                    v.push(Step::Write { at: *at, actor: *actor, kind: Kind::Good, parents: *parents, entry: *entry, push: *push });
+                }
+                if let Push::ClientState { mask, .. } = push {
+                    v.push(Step::Write { at: *at, actor: *actor, kind: *kind, parents: *parents, entry: *entry, push: Push::Broadcast { mask: *mask } });
+                }
+                if *at != 0 || *actor != 0 {
+                    v.push(Step::Write { at: 0, actor: 0, kind: *kind, parents: *parents, entry: *entry, push: *push });
+                }
+                v
+            }
+            Step::Bulk { at, n, chained, to_mask, order } => {
+                let mut v = vec![];
+                if *n > 1 {
+                    v.push(Step::Bulk { at: *at, n: *n / 2, chained: *chained, to_mask: *to_mask, order: *order });
+                    v.push(Step::Bulk { at: *at, n: *n - 1, chained: *chained, to_mask: *to_mask, order: *order });
+                }
+                if *order != 0 {
+                    v.push(Step::Bulk { at: *at, n: *n, chained: *chained, to_mask: *to_mask, order: 0 });
+                }
+                if *chained {
+                    v.push(Step::Bulk { at: *at, n: *n, chained: false, to_mask: *to_mask, order: *order });
+                }
+                v
+            }
+            _ => vec![],
+        }) {
+            let mut p = plan.clone();
+            p.steps = steps;
+            out.push(p);
+        }
+        out
+    }
+
+    fn components() -> Vec<(&'static str, &'static str)> {
+        vec![
+            ("ant-registers: SignedRegister (add_op, merge, verified_merge, verify, verify_with_address), Register, Permissions, RegisterOp (new, signature check), RegisterCrdt (write, apply_op, merge, read) over crdts::MerkleReg, blsttc signatures", "real"),
+            ("client glue (autonomi Register::write_atop / Client::register_get) and node glue (ant-node register_validation, ant-networking split-record merge)", "mirrored: the simulator calls the same ant-registers entry points in the same order"),
+            ("network between replicas / clients / adversary", "stub: simulator-owned message queue with reorder, duplication, loss until heal, partitions"),
+            ("record store, payments, kad", "not part of this sim"),
+        ]
+    }
+}
+
 fn main() {
-    eprintln!("HARNESS-ERROR: sim registers not built yet");
-    std::process::exit(2);
+    simkit::check::main::<RegistersSim>();
 }
